@@ -1362,10 +1362,21 @@ def verify_variadic_attr_size(
         )
 
     for l, (name, d) in zip(def_sizes, defs):
+        if l < 0:
+            raise VerifyException(
+                f"expected a non-negative number of values for {name}, but got {l}"
+            )
         if isinstance(d, OptionalDef) and l not in (0, 1):
             raise VerifyException(f"expected 0 or 1 values for {name}, but got {l}")
         if not isinstance(d, VariadicDef) and l != 1:
             raise VerifyException(f"expected 1 value for {name}, but got {l}")
+
+    length = len(get_op_constructs(op, construct))
+    if sum(def_sizes) != length:
+        raise VerifyException(
+            f"sum of {option.attribute_name} ({sum(def_sizes)}) does not match "
+            f"the number of {get_construct_name(construct)}s ({length})"
+        )
 
 
 def verify_variadic_same_size(
